@@ -56,7 +56,7 @@ def walk(sc, obs):
             return (i, "operation %s did not return (watchdog)" % name), trace
         if ob[0] == "panic":
             return (i, "operation %s panicked: %s" % (name, ob[1])), trace
-        if name in ("put", "putbuf", "putraw"):
+        if name in ("put", "putbuf", "putraw", "putbufdefer"):
             k = keyid(sc, op)
             key = bytes.fromhex(op[2])
             if name == "put":
@@ -66,6 +66,10 @@ def walk(sc, obs):
                 if bi >= len(bufs):
                     continue
                 val = bytes(bufs[bi])
+                info["buflen"] = len(bufs[bi])
+                if name == "putbufdefer" and int(op[4]) < len(bufs[bi]):
+                    # the caller reuses the buffer after the pipelined Put returned (before Exec): the store must not see it
+                    bufs[bi][int(op[4])] = int(op[5])
             info["val"] = val
             fits = len(key) + len(val) + META < size and (len(key) < 256 or name == "putraw")
             info["fits"] = fits
@@ -217,7 +221,7 @@ def to_coq(sc, obs, I=None):
             break
         name = op[0]
         t = trace[i]
-        if name in ("put", "putbuf", "putraw"):
+        if name in ("put", "putbuf", "putraw", "putbufdefer"):
             key = bytes.fromhex(op[2])
             if name == "put":
                 steps.append(("WNewBuf %s" % cbytes(bytes.fromhex(op[3])), "EAny"))
@@ -234,6 +238,8 @@ def to_coq(sc, obs, I=None):
                 steps.append(("WPutRaw %s %s %s 0%%Z %s" % (cN(hk(op)), cbytes(key), cnat(b), cZ(i + 1)), e))
             else:
                 steps.append(("WPut %s %s %s 0%%Z %s 0%%Z" % (cN(hk(op)), cbytes(key), cnat(b), cZ(i + 1)), e))
+            if name == "putbufdefer" and int(op[4]) < t.get("buflen", 0):
+                steps.append(("WMutBuf %s %s %d%%N" % (cnat(b), cnat(int(op[4])), int(op[5])), "EAny"))
         elif name in ("get", "getput"):
             if ob[1] == "nil":
                 steps.append(("WGet %s 0%%Z" % cN(hk(op)), "EObs (OVal (Some %s))" % cbytes(bytes.fromhex(ob[2]))))
@@ -392,7 +398,7 @@ def gen_cluster(rng, sid, replicas=None, nops=None, join=None):
     joinat = rng.randrange(nops // 3, nops) if join else -1
     ops = []
     nh = nb = 0
-    W = {"put": 24, "putbuf": 10, "get": 18, "getput": 6, "del": 4, "compact": 5, "scan": 2,
+    W = {"put": 24, "putbuf": 10, "putbufdefer": 6, "get": 18, "getput": 6, "del": 4, "compact": 5, "scan": 2,
          "mut": 10, "read": 10, "buf": 4, "mutbuf": 6, "readbuf": 2}
     names = list(W)
     wts = [W[n] for n in names]
@@ -413,6 +419,11 @@ def gen_cluster(rng, sid, replicas=None, nops=None, join=None):
                 ops.append(["buf", rbytes(rng, rng.randrange(1, maxv + 1)).hex()])
                 nb += 1
             ops.append(["putbuf", path, k, rng.randrange(nb)])
+        elif n == "putbufdefer":
+            if nb == 0:
+                ops.append(["buf", rbytes(rng, rng.randrange(1, maxv + 1)).hex()])
+                nb += 1
+            ops.append(["putbufdefer", rng.choice(["own", "non", "cc"]), k, rng.randrange(nb), rng.randrange(0, maxv), rng.randrange(256)])
         elif n == "get":
             ops.append(["get", path, k, how])
             nh += 1
@@ -534,7 +545,7 @@ def nontrivial(sc, obs):
         n = op[0]
         if n in ("get", "getput", "range") and ob[0] in ("val", "range") and (ob[1] == "nil" or n == "range"):
             have = True
-        elif have and n in ("put", "putbuf", "putraw", "del", "compact", "compactall", "xfer", "join", "mut", "mutbuf", "getput"):
+        elif have and n in ("put", "putbuf", "putbufdefer", "putraw", "del", "compact", "compactall", "xfer", "join", "mut", "mutbuf", "getput"):
             changed = True
         elif changed and n == "read" and ob[0] == "read":
             return True
@@ -645,7 +656,7 @@ def run(res):
                 continue
             hist[op[0]] = hist.get(op[0], 0) + 1
             kinds[ob[0]] = kinds.get(ob[0], 0) + 1
-            if s["level"] == "cluster" and op[0] in ("get", "getput", "put", "putbuf"):
+            if s["level"] == "cluster" and op[0] in ("get", "getput", "put", "putbuf", "putbufdefer"):
                 kk = "%s/%s%s" % (op[0], op[1], "/" + op[-1] if op[0] in ("get", "getput") else "")
                 paths[kk] = paths.get(kk, 0) + 1
         moved += (r.get("info") or {}).get("partitions_moved", 0)
